@@ -1,239 +1,16 @@
-(* MemModel.v - a small axiomatic happens-before model of the C++11 memory-order
-   fragment that libcuckoo's synchronisation relies on, with EXECUTABLE race
-   detection, and theorems that the memory orders written in the source
-   (generated file gen/MemOrders.v, regenerated from the C++ on every run) are
-   sufficient - and necessary - for data-race freedom of lock-protected data
-   and of the deferred-migration deallocation.
-
-   If somebody weakens e.g. memory_order_release in spinlock::unlock to relaxed,
-   the regenerated [sites] no longer satisfies [source_orders_sufficient], this
-   file stops compiling, and [weak_lock_orders_race] exhibits a racy execution.
-
-   Model.
-   - An execution is a list of events in interleaving order; the position in
-     the list is the identity of the event.
-   - program order (po): same thread, earlier in the list.
-   - synchronises-with (sw):
-       (1) [Clr t lk] at i and [Tas t' lk] at j>i such that no other
-           modification (Tas/Clr) of lk lies between them - i.e. the successful
-           test_and_set READS the value written by the clear - provided the
-           clear is a release and the test_and_set an acquire operation.
-           (On lock-well-formed executions this is exactly "the next Tas on lk
-           after the Clr"; see [wf_next_tas_reads_clr].)
-       (2) [Dec t] at i and a later [Dec t'] at j, provided fetch_sub is both
-           release and acquire: all operations on that counter are RMWs, so
-           every later RMW is in the release sequence of every earlier one.
-   - hb = transitive closure of po U sw.  Both go forward in the list, so hb is
-     computed by one forward pass ([hbrows]): row j = set of i with i hb j,
-     as a bool list, = union over the (at most three) DIRECT predecessors d of
-     j of (row d U {d}).
-   [memory_order_consume] is treated as NOT acquire (conservative). *)
-
+(* MemModel.v - theorems about the happens-before model of MemDefs.v: the memory orders written in the
+   source (gen/MemOrders.v, regenerated from the C++ on every run) are sufficient - and necessary - for
+   data-race freedom of lock-protected data and of the deferred-migration deallocation.  If somebody
+   weakens e.g. memory_order_release in spinlock::unlock to relaxed, the regenerated [sites] no longer
+   satisfies [source_orders_sufficient], this file stops compiling, and [weak_lock_orders_race] /
+   the extracted detector [races] exhibit a racy execution. *)
 From Coq Require Import String.
 From Coq Require Import List Bool Arith Lia.
 From LC.gen Require Import MemOrders.
+From LC Require Import MemDefs.
 Import ListNotations.
 
 Set Implicit Arguments.
-
-(* ------------------------------------------------------------------ *)
-(** * 1. Orders, events, reading the orders off the generated site list *)
-
-Definition is_acq (o : morder) : bool :=
-  match o with Acquire | AcqRel | SeqCst => true | _ => false end.
-Definition is_rel (o : morder) : bool :=
-  match o with Release | AcqRel | SeqCst => true | _ => false end.
-
-Inductive ev :=
-| Tas (t lk : nat)   (* thread t: successful test_and_set on spinlock lk *)
-| Clr (t lk : nat)   (* thread t: clear on spinlock lk (unlock) *)
-| Dec (t : nat)      (* thread t: fetch_sub(1) on the remaining-stripes counter *)
-| Rd (t x : nat)     (* plain read of location x *)
-| Wr (t x : nat).    (* plain write of location x *)
-
-Definition exec := list ev.
-
-Record orders := { o_tas : morder; o_clr : morder; o_dec : morder }.
-
-(* the weaker of two orders: acquire (release) only if both are *)
-Definition meet (a b : morder) : morder :=
-  match a, b with
-  | SeqCst, SeqCst => SeqCst
-  | _, _ =>
-    match is_acq a && is_acq b, is_rel a && is_rel b with
-    | true, true => AcqRel
-    | true, false => Acquire
-    | false, true => Release
-    | false, false => Relaxed
-    end
-  end.
-
-Lemma meet_acq a b : is_acq (meet a b) = is_acq a && is_acq b.
-Proof. destruct a, b; reflexivity. Qed.
-Lemma meet_rel a b : is_rel (meet a b) = is_rel a && is_rel b.
-Proof. destruct a, b; reflexivity. Qed.
-
-(* the unique order at call site (function f, atomic method m); None if the
-   site is missing, duplicated, or has not exactly one memory_order argument *)
-Definition site_order (s : list (string * string * list morder)) (f m : string)
-  : option morder :=
-  match filter (fun x => String.eqb (fst (fst x)) f && String.eqb (snd (fst x)) m) s with
-  | [(_, [o])] => Some o
-  | _ => None
-  end.
-
-Definition orders_of_sites (s : list (string * string * list morder)) : option orders :=
-  match site_order s "lock"%string "test_and_set"%string,
-        site_order s "try_lock"%string "test_and_set"%string,
-        site_order s "unlock"%string "clear"%string,
-        site_order s "decrement_num_remaining_lazy_rehash_locks"%string "fetch_sub"%string with
-  | Some a, Some b, Some c, Some d =>
-      Some {| o_tas := meet a b; o_clr := c; o_dec := d |}
-  | _, _, _, _ => None
-  end.
-
-(* ------------------------------------------------------------------ *)
-(** * 2. Executable happens-before *)
-
-Definition tid (a : ev) : nat :=
-  match a with Tas t _ | Clr t _ | Dec t | Rd t _ | Wr t _ => t end.
-
-(* a modifies the atomic flag of lock lk *)
-Definition mods (lk : nat) (a : ev) : bool :=
-  match a with Tas _ l | Clr _ l => l =? lk | _ => false end.
-
-Definition is_dec (a : ev) : bool := match a with Dec _ => true | _ => false end.
-
-(* [rpre] is the REVERSED prefix (head = the event just before the current
-   one) and [rs] the hb rows of those events, aligned with rpre.  Returns the
-   latest event satisfying p with its index in execution order and its row.
-   (No comparison of large unary numbers anywhere: the whole pass is O(n^2)
-   constructor steps.) *)
-Fixpoint find_back (p : ev -> bool) (rpre : list ev) (rs : list (list bool))
-  : option (nat * ev * list bool) :=
-  match rpre, rs with
-  | a :: r, row :: rs' => if p a then Some (length r, a, row) else find_back p r rs'
-  | _, _ => None
-  end.
-
-Definition sync_lock (o : orders) : bool := is_rel (o_clr o) && is_acq (o_tas o).
-Definition sync_dec (o : orders) : bool := is_rel (o_dec o) && is_acq (o_dec o).
-
-(* direct hb-predecessors (index, row) of event a whose reversed prefix is rpre:
-   the previous event of the same thread; for a Tas, the Clr it reads from;
-   for a Dec, the previous Dec. *)
-Definition dpreds (o : orders) (rpre : list ev) (rs : list (list bool)) (a : ev)
-  : list (nat * list bool) :=
-  (match find_back (fun b => tid b =? tid a) rpre rs with
-   | Some (d, _, row) => [(d, row)] | None => [] end) ++
-  (match a with
-   | Tas _ lk =>
-       if sync_lock o then
-         match find_back (mods lk) rpre rs with
-         | Some (d, Clr _ _, row) => [(d, row)] | _ => [] end
-       else []
-   | Dec _ =>
-       if sync_dec o then
-         match find_back is_dec rpre rs with
-         | Some (d, _, row) => [(d, row)] | None => [] end
-       else []
-   | _ => []
-   end).
-
-(* sets of event indices as bool lists *)
-Fixpoint orl (a b : list bool) : list bool :=
-  match a, b with
-  | [], _ => b
-  | _, [] => a
-  | x :: a', y :: b' => (x || y) :: orl a' b'
-  end.
-
-Fixpoint single (k : nat) : list bool :=
-  match k with 0 => [true] | S k' => false :: single k' end.
-
-(* row of an event = union over its direct predecessors d of (row d U {d}) *)
-Definition row_of (ds : list (nat * list bool)) : list bool :=
-  fold_right (fun d acc => orl (orl (snd d) (single (fst d))) acc) [] ds.
-
-(* rows of the hb matrix, latest event first (aligned with the reversed list) *)
-Fixpoint rrows (o : orders) (re : list ev) : list (list bool) :=
-  match re with
-  | [] => []
-  | a :: rpre =>
-      let rs := rrows o rpre in
-      row_of (dpreds o rpre rs a) :: rs
-  end.
-
-(* row j (in execution order) = the set of i with i hb j *)
-Definition hbrows (o : orders) (e : exec) : list (list bool) := rev (rrows o (rev e)).
-
-(* event i happens-before event j *)
-Definition hb_b (o : orders) (e : exec) (i j : nat) : bool :=
-  nth i (nth j (hbrows o e) []) false.
-
-(* conflicting plain accesses: same location, different threads, one a write *)
-Definition conflict (a b : ev) : bool :=
-  match a, b with
-  | Rd t x, Wr t' y | Wr t x, Rd t' y | Wr t x, Wr t' y => (x =? y) && negb (t =? t')
-  | _, _ => false
-  end.
-
-(* races whose later event is b = event j, given row = hb-predecessors of j;
-   scans the first c events of e (c = j), i = index of the head of e *)
-Fixpoint scan_row (j : nat) (b : ev) (c i : nat) (e : list ev) (row : list bool)
-  : list (nat * nat) :=
-  match c, e with
-  | S c', a :: e' =>
-      let rest := scan_row j b c' (S i) e' (tl row) in
-      if conflict a b && negb (hd false row) then (i, j) :: rest else rest
-  | _, _ => []
-  end.
-
-Fixpoint races_from (j : nat) (eall rest : list ev) (rows : list (list bool))
-  : list (nat * nat) :=
-  match rest, rows with
-  | b :: rest', row :: rows' =>
-      scan_row j b j 0 eall row ++ races_from (S j) eall rest' rows'
-  | _, _ => []
-  end.
-
-(* all pairs i<j of conflicting plain accesses not ordered by hb *)
-Definition races (o : orders) (e : exec) : list (nat * nat) :=
-  races_from 0 e e (hbrows o e).
-
-(* ------------------------------------------------------------------ *)
-(** * 3. Lock discipline (executable) *)
-
-Definition lstate := nat -> option nat.     (* lock -> current holder *)
-Definition upd (s : lstate) (lk : nat) (v : option nat) : lstate :=
-  fun l => if l =? lk then v else s l.
-Definition lstep (s : lstate) (a : ev) : lstate :=
-  match a with
-  | Tas t lk => upd s lk (Some t)
-  | Clr _ lk => upd s lk None
-  | _ => s
-  end.
-Definition ev_ok (s : lstate) (a : ev) : bool :=
-  match a with
-  | Tas _ lk => match s lk with None => true | Some _ => false end
-  | Clr t lk => match s lk with Some t' => t =? t' | None => false end
-  | _ => true
-  end.
-Fixpoint wf_from (s : lstate) (e : list ev) : bool :=
-  match e with [] => true | a :: e' => ev_ok s a && wf_from (lstep s a) e' end.
-(* a Tas only succeeds on a free lock; a Clr is only done by the holder *)
-Definition wf_locks (e : exec) : bool := wf_from (fun _ => None) e.
-
-Definition acc_ok (prot : nat -> nat) (s : lstate) (a : ev) : bool :=
-  match a with
-  | Rd t x | Wr t x => match s (prot x) with Some t' => t =? t' | None => false end
-  | _ => true
-  end.
-Fixpoint prot_from (prot : nat -> nat) (s : lstate) (e : list ev) : bool :=
-  match e with [] => true | a :: e' => acc_ok prot s a && prot_from prot (lstep s a) e' end.
-(* every plain access to x is made while the accessing thread holds prot x *)
-Definition protected_by (prot : nat -> nat) (e : exec) : bool :=
-  prot_from prot (fun _ => None) e.
 
 (* ------------------------------------------------------------------ *)
 (** * 4. Results obtained by computation: T5, T2, T4 *)
@@ -248,13 +25,6 @@ Proof.
   (* fails with "Unable to unify true with false" if a site has been weakened *)
   repeat split; reflexivity.
 Qed.
-
-(* the orders as a term, for the corollaries below and for extraction *)
-Definition source_orders : orders :=
-  match orders_of_sites sites with
-  | Some o => o
-  | None => {| o_tas := Relaxed; o_clr := Relaxed; o_dec := Relaxed |}
-  end.
 
 Lemma source_orders_eq : orders_of_sites sites = Some source_orders.
 Proof. vm_compute. reflexivity. Qed.
